@@ -10,8 +10,8 @@ sed "s#=> /repo#=> $REPO#" "$ROOT/harness/go.mod" > "$B/harness.mod"
 cat "$REPO/go.sum" "$ROOT/harness/go.sum" | sort -u > "$B/harness.sum"
 "$ROOT/mkoverlay.sh" "$REPO" "$B" || exit 1
 cd "$ROOT/harness" || exit 1
-go build -modfile="$B/harness.mod" -overlay="$B/overlay.json" -o "$B/vcheck" ./cmd/vcheck || exit 1
-go build -race -modfile="$B/harness.mod" -overlay="$B/overlay.json" -o "$B/vcheck.race" ./cmd/vcheck || exit 1
+go build -tags verif -modfile="$B/harness.mod" -overlay="$B/overlay.json" -o "$B/vcheck" ./cmd/vcheck || exit 1
+go build -race -tags verif -modfile="$B/harness.mod" -overlay="$B/overlay.json" -o "$B/vcheck.race" ./cmd/vcheck || exit 1
 # pre-warm the overlay test binaries the checks build on demand
 "$B/vcheck" prewarm || true
 echo "setup ok"
